@@ -12,7 +12,7 @@ model checking
            CascadeAgrees (guard table = if/elif cascade), StrictIffWarn (the strict run is the lenient
            run cut at the first warning), SlurpOnlyFromHeading, TrailingHasTarget; end-of-input rule.
    text    bounded: every text of <= 6 lines (thorough: <= 7 lines) obtained from a well-formed one
-           by one mutation (thorough also: <= 5 lines by two mutations) -- insert a line of any class,
+           by one mutation (thorough also: <= 4 lines by two mutations) -- insert a line of any class,
            delete or duplicate a line -- and every prefix of it: NormalForm (Formattable(D) => Blocks(Parse(Format(D))) = Blocks(D) /\\ Format(Parse(
            Format(D))) = Format(D)), CleanRoundTrip, StrictIffWarn, and the C04 invariants on the
            unmutated texts.
@@ -375,7 +375,7 @@ def run(ctx):
     quick = ctx.tier == "quick"
     rng = ctx.rng
     ctx.assumptions += [
-        "closed LTS over 24 line classes (texts of any length); normal-form law exhaustively for %s and <= %d editing calls" % (("<= 6 lines with 1 mutation", 2) if quick else ("<= 7 lines with 1 mutation, <= 5 lines with 2 mutations", 4)),
+        "closed LTS over 24 line classes (texts of any length); normal-form law exhaustively for %s and <= %d editing calls" % (("<= 6 lines with 1 mutation", 2) if quick else ("<= 7 lines with 1 mutation, <= 4 lines with 2 mutations", 4)),
         "the C15 verdicts are the statement's self-consistency laws; TLC's predictions of warnings / counts / contents are diagnostics",
         "unspecified: author/date assigned, or a trailing line added, on a block without trailer (input ended inside the block)",
         "lines never contain a str.splitlines() boundary character (DESIGN D1); editing calls get well-formed values (D3)",
@@ -417,10 +417,10 @@ def run(ctx):
         jobs += [("text", "MC_Changelog_c15_mut_quick.cfg", W, {"CASE"}),
                  ("edit", "MC_Changelog_c15_edit_quick.cfg", W, {"CASE"})]
     else:
-        jobs += [("text", cfg("text", lines=5, blocks=2, body=2, budget=2, invs=TEXT_INVS), W, {"CASE"}),
+        jobs += [("text", cfg("text", lines=4, blocks=2, body=2, budget=2, invs=TEXT_INVS), W, {"CASE"}),
                  ("text7", cfg("text", lines=7, blocks=2, body=2, budget=1, invs=TEXT_INVS), W, {"CASE"}),
-                 ("edit", cfg("edit", classes='= {"Junk", "EndNoDetails", "EndOneSpace"}', lines=3, blocks=1, body=1, budget=1, edits=3, invs=EDIT_INVS, lead=0), W, {"CASE"}),
-                 ("edit4", cfg("edit", classes="= {}", lines=2, blocks=1, body=1, budget=0, edits=4, invs=EDIT_INVS), W, {"CASE"})]
+                 ("edit", cfg("edit", classes='= {"Junk", "EndNoDetails"}', lines=3, blocks=1, body=1, budget=1, edits=3, invs=EDIT_INVS, lead=0), W, {"CASE"}),
+                 ("edit4", cfg("edit", classes="= {}", lines=1, blocks=1, body=1, budget=0, edits=4, invs=EDIT_INVS), W, {"CASE"})]
     jobs += [("hist", cc.hist_cfg(3, 1), 2 if quick else 6, {"CASE"})] + ([] if quick else [("hist4", cc.hist_cfg(4, 0), 6, {"CASE"})])
     res = {}
     # quick: two of the negative controls (closed automaton, normal-form law); thorough: all five
@@ -471,8 +471,8 @@ def run(ctx):
             break
     ctx.extra["lts_edges_replayed"] = n_edges
     ctx.extra["model_constants"] = {"classes": len(cc.ALL_CLASSES), "AEAs": [True, False],
-                                    "text": "MaxLines 6, Budget 1" if quick else "MaxLines 5 / Budget 2 and MaxLines 7 / Budget 1",
-                                    "edit": "MaxLines 3, Budget 1, 4 classes, MaxEdits 2" if quick else "MaxLines 3, Budget 1, 3 classes, MaxEdits 3 and MaxLines 2, Budget 0, MaxEdits 4"}
+                                    "text": "MaxLines 6, Budget 1" if quick else "MaxLines 4 / Budget 2 and MaxLines 7 / Budget 1",
+                                    "edit": "MaxLines 3, Budget 1, 4 classes, MaxEdits 2" if quick else "MaxLines 3, Budget 1, 2 classes, MaxEdits 3 and MaxLines 1, Budget 0, MaxEdits 4"}
     e = step_edges[len(step_edges) // 3]
     ctx.sample("lts edge: " + json.dumps(e, separators=(",", ":")))
 
